@@ -3,7 +3,7 @@
 package syncx
 
 // C18 — test entry points. TestVerifC18Plain* run without the race detector and
-// carry the large case counts; TestVerifC18Race* run the same workloads (fewer
+// carry the large case counts; TestVerifC18Race* run the same workloads (half the
 // cases) in the separate -race run. Case counts are fixed per tier (vk.N); the
 // GOMAXPROCS sweep {4,1,16,2} is done inside each test, block by block.
 
@@ -17,7 +17,7 @@ import (
 func c18N(quick, thorough int, race bool) int {
 	n := vk.N(quick, thorough)
 	if race {
-		n /= 4
+		n /= 2
 	}
 	if n < 8 {
 		n = 8
@@ -145,6 +145,9 @@ func c18Misc(t *testing.T, race bool) {
 	}) && c18Loop(m, &idx, c18N(160, 4800, race), func(i, procs int) bool {
 		sc := c18GenOnce(r)
 		sc.Procs = procs
+		if race { // spinning barriers are slow under the race detector
+			sc.Rounds = 10 + sc.Rounds/8
+		}
 		return !m.Only(i) || c18RunOnce(m, i, sc)
 	}) && c18Loop(m, &idx, c18N(200, 6000, race), func(i, procs int) bool {
 		sc := c18GenImm(r)
